@@ -94,6 +94,7 @@ PROPS = {
     },
     "C14": {
         "families": [fam("c14sc", 40, 400, seeds=4)],
+        "defects": ["D15"],
         "extra": c14_extra,
         "level": "proof",
         "rule": "c14sc: one `assert` per round (a request multiset partitioned over 2..32 goroutines, cold then warm cache, yields "
